@@ -272,8 +272,19 @@ def renderFnPathC (steps : List Step) : List Char := litRoot ++ renderSteps step
 
 def renderAbs (steps : List Step) : String := String.ofList (renderAbsC steps)
 def renderFnPath (steps : List Step) : String := String.ofList (renderFnPathC steps)
+/-- `etree_iter_paths(elem, path=arg)`: the element itself gets `arg`; below it the steps are
+joined with `/`, the first one directly to `arg` when `arg` is `''` or `'/'` (etree.py: the
+three-way branch for element children, `sep` for comments and PIs after fix-c14-2) -/
+def etreeSep (arg : List Char) : List Char :=
+  if arg = [] ∨ arg = ['/'] then arg else arg ++ ['/']
+
+def renderEtreeC (arg : List Char) : List Step → List Char
+  | [] => arg
+  | s :: ss => etreeSep arg ++ (renderStepC s ++ renderSteps ss)
+
+def renderEtree (arg : String) (steps : List Step) : String := String.ofList (renderEtreeC arg.toList steps)
 /-- what `etree_iter_paths(root)` prints (default `path='.'`) -/
-def renderRel (steps : List Step) : String := String.ofList ('.' :: renderSteps steps)
+def renderRel (steps : List Step) : String := renderEtree "." steps
 
 /-- `path` of a parent-less node (`self.parent is None` branches) -/
 def orphanSteps : Node → List Step
